@@ -158,8 +158,8 @@ def r15_2(ctx, rep, roles):
         info = kv.cond_info(row)
         stored = bool(kv.vv_aggs(row)) or bool(kv.field_writes(row, VV, "version"))
         st = info["status"]
-        deleted = st is not None and st[1] is True and st[0] == "Deleted"
-        known_status = st is not None and st[1] is True
+        deleted = kv.status_deleted(info)
+        known_status = kv.status_deleted(info) or kv.status_visible(info)
         fired = [e for e in row.calls() if e[1] == trig["id"]]
         want = stored and known_status and not deleted
         if stored and not known_status:
